@@ -2,6 +2,7 @@
 package c16
 
 import (
+	"sync"
 	"bytes"
 	"crypto/sha256"
 	"encoding/json"
@@ -583,11 +584,98 @@ func TestEveryKeywordAsName(t *testing.T) {
 	}
 }
 
+// several runs at the same time into one output directory, each with a package name of its own: every run that
+// announces success has written its package completely (what one run stages, creates or cleans up is its own)
+func TestParallelRunsIntoOneDirectory(t *testing.T) {
+	rec.Begin(t)
+	rec.Rule(rule + ruleMore)
+	if rec.Shard() != 0 {
+		t.Skip("seed independent: shard 0 only")
+	}
+	bin := os.Getenv("VERIF_EMERGE_BIN")
+	if _, err := os.Stat(bin); err != nil {
+		t.Skip("emerge binary not built")
+	}
+	rounds := rec.Pick(4, 40)
+	for round := 0; round < rounds; round++ {
+		sb, err := os.MkdirTemp("", "c16par")
+		if err != nil {
+			t.Fatalf("%v", err)
+		}
+		out := filepath.Join(sb, "out")
+		_ = os.Mkdir(out, 0o755)
+		in := filepath.Join(sb, "in.ebnf")
+		_ = os.WriteFile(in, []byte(inputs["valid3"]), 0o644)
+		const n = 6
+		type res struct {
+			code int
+			out  string
+		}
+		results := make([]res, n)
+		var wg sync.WaitGroup
+		start := make(chan struct{})
+		for i := 0; i < n; i++ {
+			wg.Add(1)
+			go func(i int) {
+				defer wg.Done()
+				cmd := exec.Command(bin, "-out="+out, fmt.Sprintf("-name=pkg%d", i), in)
+				cmd.Dir = sb
+				var buf bytes.Buffer
+				cmd.Stdout, cmd.Stderr = &buf, &buf
+				<-start
+				err := cmd.Run()
+				if ee, ok := err.(*exec.ExitError); ok {
+					results[i].code = ee.ExitCode()
+				} else if err != nil {
+					results[i].code = -1
+				}
+				results[i].out = buf.String()
+			}(i)
+		}
+		close(start)
+		wg.Wait()
+		rec.Case(fmt.Sprintf("parallel:%d", round), true, "parallel_runs_into_one_directory")
+		for i, r := range results {
+			name := fmt.Sprintf("pkg%d", i)
+			announced := strings.Contains(strings.ToLower(r.out), "success")
+			var missing []string
+			for _, f := range sixFiles {
+				data, err := os.ReadFile(filepath.Join(out, name, f))
+				if err != nil || len(data) == 0 {
+					missing = append(missing, f)
+					continue
+				}
+				if _, perr := parser.ParseFile(token.NewFileSet(), f, data, 0); perr != nil {
+					missing = append(missing, f+" (not valid Go)")
+				}
+			}
+			problem := ""
+			switch {
+			case (r.code == 0) != announced:
+				problem = fmt.Sprintf("exit status %d but success announced=%v", r.code, announced)
+			case r.code == 0 && len(missing) > 0:
+				problem = fmt.Sprintf("success is announced, but the package lacks %v", missing)
+			case r.code != 0:
+				problem = fmt.Sprintf("the run fails (exit status %d) although the specification is valid, the name usable and <out>/%s free", r.code, name)
+			}
+			if problem != "" {
+				os.RemoveAll(sb)
+				rec.Fail(t, "parallel", map[string]any{"runs": n, "round": round}, "%d runs at the same time into one output directory with the names pkg0..pkg%d: run %d: %s\noutput:\n%s", n, n-1, i, problem, r.out)
+				return
+			}
+		}
+		os.RemoveAll(sb)
+	}
+}
+
 func TestReplay(t *testing.T) {
 	if !rec.IsReplay() {
 		t.Skip("not in replay mode")
 	}
-	_, raw, _ := rec.Replay()
+	kind, raw, _ := rec.Replay()
+	if kind != "config" {
+		t.Skip("schedule-dependent cases are re-run by the regular check")
+	}
 	var c Config
 	if err := json.Unmarshal(raw, &c); err != nil {
 		t.Fatal(err)
